@@ -38,6 +38,10 @@ func (t inMemAuth) RoundTrip(r *http.Request) (*http.Response, error) {
 	if c.Endpoint == "validate" {
 		body = ""
 	}
+	hdr := http.Header{"Content-Type": {"application/json"}}
+	for k, v := range ans.Header {
+		hdr.Set(k, v)
+	}
 	return &http.Response{StatusCode: ans.Status, Status: http.StatusText(ans.Status), Proto: "HTTP/1.1", ProtoMajor: 1, ProtoMinor: 1,
-		Header: http.Header{"Content-Type": {"application/json"}}, Body: io.NopCloser(strings.NewReader(body)), ContentLength: int64(len(body)), Request: r}, nil
+		Header: hdr, Body: io.NopCloser(strings.NewReader(body)), ContentLength: int64(len(body)), Request: r}, nil
 }
